@@ -140,14 +140,14 @@ impl TableBuilder for PostgresQueryBuilder {
                     let first = column_def.types.is_none();
 
                     column_def.spec.iter().fold(first, |first, column_spec| {
-                        if !first
-                            && !matches!(
-                                column_spec,
-                                ColumnSpec::AutoIncrement
-                                    | ColumnSpec::Generated { .. }
-                                    | ColumnSpec::Using(_)
-                            )
-                        {
+                        // specifications that write nothing must not be separated by a comma
+                        let writes = !matches!(
+                            column_spec,
+                            ColumnSpec::AutoIncrement
+                                | ColumnSpec::Generated { .. }
+                                | ColumnSpec::Comment(_)
+                        );
+                        if !first && writes && !matches!(column_spec, ColumnSpec::Using(_)) {
                             write!(sql, ", ").unwrap();
                         }
                         match column_spec {
@@ -187,7 +187,7 @@ impl TableBuilder for PostgresQueryBuilder {
                                 QueryBuilder::prepare_simple_expr(self, expr, sql);
                             }
                         }
-                        false
+                        first && !writes
                     });
                 }
                 TableAlterOption::RenameColumn(from_name, to_name) => {
